@@ -24,6 +24,7 @@ from engine.th import TH
 from spec.seq import N, NW, select, bit
 
 PROPERTY = "C32"
+HISTORY_LEMMAS = ['batched_queue_history', 'modcounter_history']  # lemmas/History.lean: one-cycle contracts => history-level statement (Lean 4)
 LEVEL = "proof"
 ASSUMPTIONS = [
     "caller obligations from the docstrings: count <= max_start_count / max_stop_count; tagged: start only free slots, stop only taken slots, no two ways start or stop the same slot in one cycle, slot < slots_number",
